@@ -84,3 +84,17 @@ package utils
 //@   loop 2 invariant[second-pass] forall(k, string, (in(k, mergedHeaders) <==> (in(k, firstHeaders) && !in(k, secondHeaders)) || seen2[k]) && (seen2[k] ==> mergedHeaders[k] == secondHeaders[k]) && (in(k, mergedHeaders) && !seen2[k] ==> mergedHeaders[k] == firstHeaders[k]))
 //@   ensures[fresh]  result != nil && !old(allocated(result))
 //@   ensures[merged] mergedOf(result, firstHeaders, secondHeaders)
+
+// ---------------------------------------------------------------- the header text handed to the proxy (C07)
+// Callers see DumpHeaders as a deterministic function of the map (declared pure where it is called). Its body is under a
+// safety-only contract: no panic, nothing modified, and - because fmt.Sprintf is modelled as a function of a CONSTANT
+// format and its arguments - every format string is a compile-time constant (a computed format would have the '%'
+// characters of header names and values interpreted as directives).
+//@ extern lo.MapToSlice
+//@   modifies nothing
+//@ func DumpHeaders
+//@   prop C07
+//@   modifies nothing
+//@ func DumpHeaders.func1
+//@   prop C07
+//@   modifies nothing
